@@ -31,6 +31,9 @@ type LossyScenario struct {
 	// {PID, counter step in {dup,+1,gap}, PUSI, payload / adaptation-only / TEI /
 	// discontinuity_indicator}, judged against the reassembly reference.
 	Hdrs []HdrPkt `json:"hdrs,omitempty"`
+	// muxer source (no Model): the stream is what the real Muxer writes for this history
+	Period int     `json:"period,omitempty"`
+	Ops    []MuxOp `json:"ops,omitempty"`
 }
 
 type lossy struct{}
@@ -51,7 +54,7 @@ func (lossy) Meta() core.EngineMeta {
 		Rule:       "Reference-multiplexed streams (as C02; some with PES payloads made of PES-start-code patterns at packet strides) go through the PacketChannel. A quarter of the runs are header sequences: seeded packet sequences over {PID, counter step in dup/+1/gap, PUSI, payload / adaptation-only / transport-error / discontinuity_indicator} with uniquely tagged payloads, judged against the spec-level reassembly reference (DESIGN App. B: must-deliver / may-be-missing / must-not-appear). Of the rest, even run indices enumerate EVERY single-packet duplication and EVERY single-packet deletion position of their stream (exhaustive per stream); odd indices apply a seeded multi-fault plan (loss bursts < 16 per PID, duplicates of first/middle/last packets, duplicates delayed behind other PIDs' packets, dup+loss). The fault-free run of the same stream is the baseline. evaluations = faulted executions; distinct = abstract fingerprint (fault kind, unit kind, position class first/middle/last/single, packets-per-unit class, cc-wrap, interleaved, outcome class); non-trivial = the fault hit a packet of a unit (always).",
 		Real:       []string{"astits.Demuxer and everything below it"},
 		Stub:       []string{"refts reference multiplexer", "PacketChannel (drop / duplicate)", "SimReader (fault-free)", "spec-level bookkeeping of which unit each packet belongs to"},
-		FaultKinds: []string{"hdr-dup", "hdr-gap", "hdr-disc", "hdr-afonly", "hdr-tei", "hdr-orphan", "dup", "drop", "dup-delayed", "drop-burst", "dup-first", "dup-last", "dup-single-packet-unit", "drop-pusi", "biased-payload"},
+		FaultKinds: []string{"muxer-source", "hdr-dup", "hdr-gap", "hdr-disc", "hdr-afonly", "hdr-tei", "hdr-orphan", "dup", "drop", "dup-delayed", "drop-burst", "dup-first", "dup-last", "dup-single-packet-unit", "drop-pusi", "biased-payload"},
 		Assumptions: []string{
 			"a duplicate is a byte-identical copy following the original before any other packet of its PID",
 			"losses: at most 14 consecutive packets of a PID (15 make the next counter equal the last one seen = a duplicate by definition) and at least one later payload packet of that PID survives (otherwise the counter cannot reveal the gap); PMT PIDs count as affected when PID 0 is",
@@ -70,6 +73,28 @@ func (lossy) Decode(raw json.RawMessage) (any, error) {
 func (lossy) Generate(r *core.PRNG, tier string, idx int64) any {
 	if idx%4 == 3 {
 		return &LossyScenario{Hdrs: genHeaders(r)}
+	}
+	if idx%8 == 1 {
+		sc := &LossyScenario{Period: []int{1, 2, 3, 40}[r.Intn(4)]}
+		sc.Ops = GenMuxOps(r, r.Range(4, 14), sc.Period, false, false, false, false)
+		// plans are drawn against an upper bound of the packet count; out-of-range faults are ignored
+		k := r.Range(1, 4)
+		for i := 0; i < k; i++ {
+			f := ChanFault{At: r.Intn(40)}
+			switch r.Pick(3, 2, 3, 2) {
+			case 0:
+				f.Kind = "dup"
+			case 1:
+				f.Kind, f.Gap = "dup", r.Range(1, 6)
+			case 2:
+				f.Kind, f.N = "drop", 1
+			default:
+				f.Kind, f.N = "drop", r.Range(2, 14)
+			}
+			sc.Faults = append(sc.Faults, f)
+		}
+		sc.Enum = r.Chance(1, 3)
+		return sc
 	}
 	cfg := genStreamCfg(r)
 	cfg.Straddle = false
@@ -222,23 +247,64 @@ func (lossy) Execute(scAny any, keepLog bool) *core.Outcome {
 	sc := scAny.(*LossyScenario)
 	out := core.NewOutcome()
 	out.Log = core.NewLog(keepLog)
-	if sc.Model == nil {
+	if sc.Model == nil && len(sc.Ops) == 0 {
 		if len(sc.Hdrs) > 0 {
 			judgeHeaders(out, sc.Hdrs)
 		}
 		return out
 	}
-	b, err := sc.Model.Build()
-	if err != nil || len(b.Packets) == 0 {
-		out.Probe("model-unbuildable")
-		return out
+	model := sc.Model
+	var b *refts.Built
+	var want map[uint16][]expDatum
+	if len(sc.Ops) > 0 {
+		// second source: what the real Muxer wrote (tables between units, adaptation-only
+		// packets, its own stuffing layout); units are the PUSI-delimited groups of each PID
+		model, b = builtFromMux(sc.Period, sc.Ops)
+		if b == nil || len(b.Packets) == 0 {
+			out.Probe("mux-output-unusable")
+			return out
+		}
+		out.Fire("muxer-source")
+	} else {
+		var err error
+		b, err = sc.Model.Build()
+		if err != nil || len(b.Packets) == 0 {
+			out.Probe("model-unbuildable")
+			return out
+		}
 	}
 	out.Packets = int64(len(b.Packets))
 	base, nerr, ok := demuxRecs(b.Packets, nil)
-	want := expectedWithUnits(sc.Model, b)
 	if nerr > 0 || !ok {
 		out.Probe("baseline-mismatch")
 		return out
+	}
+	if len(sc.Ops) > 0 {
+		// the k-th datum of a PID is its k-th unit (one datum per PES / PAT / PMT unit)
+		want = map[uint16][]expDatum{}
+		nu := map[uint16]int{}
+		for _, mt := range b.Meta {
+			if mt.Unit >= 0 && mt.Index == 0 {
+				nu[mt.PID]++
+			}
+		}
+		for pid, l := range base {
+			if len(l) != nu[pid] {
+				out.Probe("baseline-mismatch")
+				return out
+			}
+			si := -1
+			for i, st := range model.Streams {
+				if st.PID == pid {
+					si = i
+				}
+			}
+			for k, d := range l {
+				want[pid] = append(want[pid], expDatum{key: d.key, stream: si, unit: k})
+			}
+		}
+	} else {
+		want = expectedWithUnits(sc.Model, b)
 	}
 	for _, pid := range pidKeys(want) {
 		w := want[pid]
@@ -260,12 +326,27 @@ func (lossy) Execute(scAny any, keepLog bool) *core.Outcome {
 			return out
 		}
 	}
+	// Muxer source: its PAT/PMT repetitions are identical in content, so they are not
+	// attributable (the unique-tag rule); faults are confined to elementary-stream packets there.
+	// The reference-model source covers PSI PIDs.
+	faultable := func(i int) bool {
+		return len(sc.Ops) == 0 || (i >= 0 && i < len(b.Meta) && model.Streams[b.Meta[i].Stream].Kind == "PES")
+	}
 	one := func(faults []ChanFault) bool {
+		if len(sc.Ops) > 0 {
+			var fs []ChanFault
+			for _, f := range faults {
+				if faultable(f.At) {
+					fs = append(fs, f)
+				}
+			}
+			faults = fs
+		}
 		out.Evals++
 		pre := len(out.Violations)
-		lossyJudge(out, sc.Model, b, base, faults, out.Log)
+		lossyJudge(out, model, b, base, faults, out.Log)
 		if len(out.Violations) > pre {
-			out.Narrow(pre, &LossyScenario{Model: sc.Model, Faults: faults})
+			out.Narrow(pre, &LossyScenario{Model: sc.Model, Period: sc.Period, Ops: sc.Ops, Faults: faults})
 			return false
 		}
 		return true
@@ -276,6 +357,9 @@ func (lossy) Execute(scAny any, keepLog bool) *core.Outcome {
 			lastOf[m.PID] = i
 		}
 		for i := range b.Packets {
+			if !faultable(i) {
+				continue
+			}
 			one([]ChanFault{{Kind: "dup", At: i}})
 			if i != lastOf[b.Meta[i].PID] {
 				one([]ChanFault{{Kind: "drop", At: i, N: 1}})
@@ -324,7 +408,7 @@ func lossyJudge(out *core.Outcome, m *refts.Model, b *refts.Built, base map[uint
 			}
 			// previous surviving packet of the PID belongs to the unit preceding the gap
 			for j := i - 1; j >= 0; j-- {
-				if b.Meta[j].PID == mt.PID {
+				if b.Meta[j].PID == mt.PID && b.Meta[j].Unit >= 0 {
 					if !dropped[j] {
 						mayMiss[[2]int{b.Meta[j].Stream, b.Meta[j].Unit}] = true
 					} else {
@@ -848,4 +932,82 @@ func commonPrefix(a, b []byte) int {
 		n++
 	}
 	return n
+}
+
+// builtFromMux runs a Muxer history and describes its output packet by packet: units are the
+// PUSI-delimited groups of payload packets of each PID; adaptation-only packets belong to no
+// unit (Unit -1).
+func builtFromMux(period int, ops []MuxOp) (*refts.Model, *refts.Built) {
+	o := core.NewOutcome()
+	if period < 1 {
+		period = 1
+	}
+	ms := NewMuxSim(period, world.WriterPlan{}, o, false)
+	ms.Run(ops)
+	if len(ms.W.Buf) == 0 || len(ms.W.Buf)%188 != 0 {
+		return nil, nil
+	}
+	pk, _ := refts.SplitPackets(ms.W.Buf)
+	m := &refts.Model{}
+	b := &refts.Built{}
+	sidx := map[uint16]int{}
+	type st struct{ unit, first int }
+	cur := map[uint16]*st{}
+	for i, raw := range pk {
+		p, err := refts.DecodePacket(raw)
+		if err != nil {
+			return nil, nil
+		}
+		si, ok := sidx[p.PID]
+		if !ok {
+			kind := "PES"
+			if p.PID == 0 {
+				kind = "PAT"
+			} else if ms.pmtPID >= 0 && int(p.PID) == ms.pmtPID {
+				kind = "PMT"
+			}
+			si = len(m.Streams)
+			sidx[p.PID] = si
+			m.Streams = append(m.Streams, refts.Stream{PID: p.PID, Kind: kind})
+		}
+		mt := refts.PktMeta{Stream: si, Unit: -1, PID: p.PID, CC: p.CC, PUSI: p.PUSI, Count: 1}
+		if p.HasPayload() {
+			c := cur[p.PID]
+			if p.PUSI || c == nil {
+				n := 0
+				if c != nil {
+					n = c.unit + 1
+				}
+				c = &st{unit: n, first: i}
+				cur[p.PID] = c
+			}
+			mt.Unit = c.unit
+			mt.Index = i // provisional; fixed below
+		}
+		b.Packets = append(b.Packets, raw)
+		b.Meta = append(b.Meta, mt)
+	}
+	// Index / Count within each unit
+	type key struct {
+		pid  uint16
+		unit int
+	}
+	counts := map[key]int{}
+	for _, mt := range b.Meta {
+		if mt.Unit >= 0 {
+			counts[key{mt.PID, mt.Unit}]++
+		}
+	}
+	seen := map[key]int{}
+	for i := range b.Meta {
+		mt := &b.Meta[i]
+		if mt.Unit < 0 {
+			mt.Index, mt.Count = 0, 1
+			continue
+		}
+		k := key{mt.PID, mt.Unit}
+		mt.Index, mt.Count = seen[k], counts[k]
+		seen[k]++
+	}
+	return m, b
 }
